@@ -11,7 +11,7 @@ import vlib
 LEVEL_TEXT = ('Lean 4 theorems, for all shapes/targets/parities: pad (2-D and cubes) is the restriction of the centred zero-extended '
               'array (origin sample floor(m/2) -> floor(S/2), every copied sample keeps its coordinate), its slices are in bounds, '
               'pad-then-crop is the identity; util.window: its whole decision tree is regenerated from the source (Gen.windowAct) and proved for all arguments to be: one-element input or neither argument -> input unchanged, shape= -> the centred crop/pad (origin floor(n/2) kept, 2-D and cubes), slice= inside the array -> exactly the index set [r0:r1, c0:c1], shape= and slice= -> that view iff shape equals the extent of the slice, AssertionError otherwise (window_dispatch, window_shape_keeps_origin, window_slice_indices, window_passthrough, window3_shape_keeps_origin); subarray/boundary/boundary_slice/slice_offset address the stated index sets; rebin '
-              'preserves the sum; the centroid of an array that is half-turn symmetric about a sample is that sample (also for any ring of weights: antialiased values), hence the centroid of a drawn circle / rectangle / hexagon with zero shift is the origin sample floor(n/2) UNDER the hypotheses of the theorem: row 0 of the image is zero when the row count is even and column 0 is zero when the column count is even (the mirror image of index 0 on an even axis falls outside the array; satisfiable: centroid_of_drawn_rectangle_instance, a 2x2 rectangle on 6x6 over Q) (centroid_of_drawn_shapes), the centroid of an indicator '
+              'preserves the sum; util.centroid is regenerated statement by statement (Gen.centroid: normalisation by the total, np.mgrid lower bounds, grid/np.dot pairing, order of the returned pair) and proved over any field to return (row numerator / total, column numerator / total) of the quantities the following theorems are about (centroid_regenerated); the centroid of an array that is half-turn symmetric about a sample is that sample (also for any ring of weights: antialiased values), hence the centroid of a drawn circle / rectangle / hexagon with zero shift is the origin sample floor(n/2) UNDER the hypotheses of the theorem: row 0 of the image is zero when the row count is even and column 0 is zero when the column count is even (the mirror image of index 0 on an even axis falls outside the array; satisfiable: centroid_of_drawn_rectangle_instance, a 2x2 rectangle on 6x6 over Q) (centroid_of_drawn_shapes), the centroid of an indicator '
               'set is its mean position; mesh coordinates translate under integer '
               'shifts and negate under the half-turn index map; circle/rectangle/hexagon values lie in [0,1], are binary without '
               'antialiasing, translate under integer shifts (also spider) and are half-turn symmetric and mirror symmetric about the origin ROW (hexagons in both orientations; the column mirror of unrotated circles, rectangles and hexagons is their composition: column_mirror_when_unrotated) — via the closure of their six '
@@ -26,7 +26,7 @@ LEVEL_NOTE = ('Trusted: Lean kernel, py2lean subset semantics, NumPy slicing/res
               'real-valued margin to the edge is < 1e-9), generator coverage. Known finding: hex_segments(seg_gap=0, antialias=False) '
               'shares edge pixels between neighbours. Unproven: equal area up to edge sampling (oracle only).')
 TECHNIQUE = 'Lean 4 proof (omega/induction/Finset sums) over translator-regenerated index kernel + hand model with differential correspondence'
-GEN = ['Util', 'UtilWindow', 'Helper', 'Helper20', 'Hex', 'Mesh', 'Extent', 'FieldAccum', 'FieldDispatch', 'FieldIdx', 'FieldMerge']      # every Gen module imported transitively (Model/Field)
+GEN = ['Util', 'UtilWindow', 'UtilCentroid', 'Helper', 'Helper20', 'Hex', 'Mesh', 'Extent', 'FieldAccum', 'FieldDispatch', 'FieldIdx', 'FieldMerge']      # every Gen module imported transitively (Model/Field)
 OPS = ['C20']
 RULE = ('cases: pad of 2-D arrays (all source/target sizes 1..9, every grow/shrink/parity mix) and cubes (depth 1..3, non-square), '
         'subarray incl. windows outside the array, boundary/boundary_slice/slice_offset on sparse integer arrays with thresholds and '
@@ -38,7 +38,8 @@ RULE = ('cases: pad of 2-D arrays (all source/target sizes 1..9, every grow/shri
         'than the array or centred far outside it; boundary data at physical scales 1e-18..1e12; half-turn-symmetric arrays for the '
         'centroid; deeper tiers add arrays up to 3001x3 / 3x4097, int8/int16/uint8/int32/float32 data, a 61-segment aperture; distinct = canonical (kind, shapes, parameters) signature; non-trivial = not the '
         'same-shape/identity case')
-TRUSTED = ['util.window: `img = np.asarray(img)` and img.size = product of the shape (checked structurally / modelled as s0*s1); NumPy basic slicing img[a:b, c:d] as modelled by viewSlice/sliceBound',
+TRUSTED = ['util.centroid: np.mgrid[a:nr, b:nc] gives the grids (a + i, b + j), np.dot of two equally raveled arrays is the double sum, np.sum the total (Gen.centroid is built on these; compared at Float on every centroid case)',
+           'util.window: `img = np.asarray(img)` and img.size = product of the shape (checked structurally / modelled as s0*s1); NumPy basic slicing img[a:b, c:d] as modelled by viewSlice/sliceBound',
            'NumPy slicing, reshape(...).sum, np.any/np.where, np.clip/np.minimum semantics as modelled by hand in Model/Geometry.lean',
            'libm sqrt/sin/cos agree with NumPy to 1e-9 (drawn shapes are compared with the model run at Float)']
 UNPROVEN = ['hex_segments: equal segment area up to edge sampling (checked on the real code by the oracle only)',
@@ -497,6 +498,10 @@ def compare(c, io, mo):
         nr, nc, den = m['num']
         for got, num in zip(io['rc'], (nr, nc)):
             if abs(got - num / den) > 1e-9 * (1 + abs(num / den)): return f'centroid {io["rc"]} vs {nr}/{den}, {nc}/{den}'
+        rc = vlib.unfl(m['rc'])
+        for got, want in zip(io['rc'], rc):
+            if not (abs(got - want) <= 1e-9 * (1 + abs(want))) and not (np.isnan(got) and np.isnan(want)):
+                return f'centroid {io["rc"]} vs the regenerated Gen.centroid run at Float {rc}'
         return None
     if k == 'hex_ring':
         return None if io['cells'] == m['cells'] else f"hex_ring({c['k']}): impl {io['cells'][:4]}… model {m['cells'][:4]}…"
